@@ -8,7 +8,9 @@ import (
 	"strings"
 
 	"github.com/iancoleman/strcase"
+	"github.com/pentops/j5/gen/j5/client/v1/client_j5pb"
 	"github.com/pentops/j5/lib/verifshim/compile"
+	"google.golang.org/protobuf/reflect/protoreflect"
 	"google.golang.org/protobuf/types/descriptorpb"
 	"verifharness/vh"
 )
@@ -190,8 +192,8 @@ func genEntity(r *vh.Rand) *entityDecl {
 			if r.Chance(85) {
 				return vh.Pick(r, []string{"ACTIVE", "INACTIVE", "PENDING", "DONE", "A_B", "S1", "NEW", "ARCHIVED", "IN_PROGRESS", "X"})
 			}
-			return vh.Pick(r, []string{"Active", "active", "inProgress", "Done2", "a_b"})
-		}, rawKey))
+			return vh.Pick(r, []string{"Active", "active", "inProgress", "Done2", "a_b", "Draft", "onHold"})
+		}, rawKey, lowerKey))
 	}
 	// events
 	es := nameSet{}
@@ -289,6 +291,7 @@ func genMalformed(r *vh.Rand) (*entityDecl, string) {
 
 type compiled struct {
 	dump     *dumped
+	files    []protoreflect.FileDescriptor
 	err      error
 	panicked any
 }
@@ -310,6 +313,7 @@ func compileEntity(d *entityDecl) (out compiled) {
 		return
 	}
 	out.dump = dd
+	out.files = files
 	return
 }
 
@@ -382,12 +386,37 @@ func runC17(cfg *vh.Config) error {
 				res.Fail(vh.Failure{Case: caseNo, Stream: "entity", Sig: sig, Clause: "every internal reference of the expansion resolves", Input: in, Got: out.err.Error()})
 			}
 		}
+		// second observable: the client API's StateEntity, derived by the real j5client
+		var clines []line
+		cok := false
+		if ok {
+			ents, plain, cerr, cpan := clientEntities(d.Pkg, out.files)
+			switch {
+			case cpan != nil:
+				res.Fail(vh.Failure{Case: caseNo, Stream: "entity", Sig: "C17 client API derivation panics on a compiled entity", Clause: "the client groups the parts into one StateEntity", Input: in, Got: fmt.Sprint(cpan)})
+			case cerr != nil:
+				res.Count("client_err")
+				if !malformed {
+					res.Fail(vh.Failure{Case: caseNo, Stream: "entity", Sig: "C17 client API derivation fails on a compiled entity: " + errClass(cerr), Clause: "the client groups the parts into one StateEntity", Input: in, Got: cerr.Error()})
+				}
+			default:
+				cok = true
+				clines = clientLines(ents)
+				if !malformed {
+					oracleClient(res, caseNo, d, ents, plain, in)
+				}
+			}
+		}
 		lineTerms := make([]string, len(lines))
 		for k, l := range lines {
 			lineTerms[k] = l.coq()
 		}
-		cf.Terms = append(cf.Terms, fmt.Sprintf("EC %s %s [%s]", d.coq(), vh.BoolTerm(ok), strings.Join(lineTerms, ";\n    ")))
-		impl := map[string]any{"ok": ok, "lines": len(lines)}
+		clineTerms := make([]string, len(clines))
+		for k, l := range clines {
+			clineTerms[k] = l.coq()
+		}
+		cf.Terms = append(cf.Terms, fmt.Sprintf("EC %s %s [%s] %s [%s]", d.coq(), vh.BoolTerm(ok), strings.Join(lineTerms, ";\n    "), vh.BoolTerm(cok), strings.Join(clineTerms, ";\n    ")))
+		impl := map[string]any{"ok": ok, "lines": len(lines), "client_ok": cok, "client_lines": len(clines)}
 		if !ok {
 			impl["err"] = errClass(out.err)
 		}
@@ -441,6 +470,10 @@ func errClass(err error) string {
 		return "status not found in entity"
 	case strings.Contains(s, "duplicate summary"):
 		return "duplicate summary name"
+	case strings.Contains(s, "must contain at least one field declaration"):
+		return "proto oneof without members"
+	case strings.Contains(s, "unknown enum value"):
+		return "unknown enum value"
 	case strings.Contains(s, "not found"):
 		return "type not found"
 	case strings.Contains(s, "already defined") || strings.Contains(s, "duplicate") || strings.Contains(s, "conflict"):
@@ -682,5 +715,38 @@ func oracleC17(res *vh.Result, caseNo int, d *entityDecl, dump *dumped, in any) 
 	}
 	if nUpsert != len(d.Summaries) {
 		fail("C17 upsert topics differ in number from the summaries", "one upsert topic per summary", fmt.Sprint(nUpsert))
+	}
+}
+
+// oracleClient: the client API groups the entity's parts into exactly one StateEntity.
+func oracleClient(res *vh.Result, caseNo int, d *entityDecl, ents []*client_j5pb.StateEntity, plain []*client_j5pb.Service, in any) {
+	fail := func(sig, clause, got string) {
+		res.Fail(vh.Failure{Case: caseNo, Stream: "entity", Sig: sig, Clause: clause, Input: in, Got: got})
+	}
+	if len(ents) != 1 {
+		fail("C17 client API does not show exactly one state entity", "the client groups the parts into one StateEntity", fmt.Sprint(len(ents)))
+		return
+	}
+	e := ents[0]
+	if len(plain) != 0 {
+		fail("C17 client API leaves an entity service outside the StateEntity", "query and command services belong to the entity", plain[0].Name)
+	}
+	if e.QueryService == nil || len(e.QueryService.Methods) != 3 {
+		fail("C17 client StateEntity has no query service with three methods", "a query service with Get, List and Events methods", "")
+	}
+	if len(e.CommandServices) != len(d.Commands) {
+		fail("C17 client StateEntity command services differ in number from the declaration", "every declared command service", fmt.Sprint(len(e.CommandServices)))
+	}
+	if len(e.Events) != len(d.Events) {
+		fail("C17 client StateEntity events differ in number from the declaration", "exactly one option per declared event", fmt.Sprint(len(e.Events)))
+	}
+	var prim []string
+	for _, k := range d.Keys {
+		if k.Key && k.Primary {
+			prim = append(prim, k.Name)
+		}
+	}
+	if strings.Join(prim, ",") != strings.Join(e.PrimaryKey, ",") {
+		fail("C17 client StateEntity primary keys are not the declared primary keys in order", "primary-key fields ... in declaration order", strings.Join(e.PrimaryKey, ","))
 	}
 }
